@@ -7,7 +7,8 @@ pub mod c08;
 pub mod c09;
 pub mod c12;
 pub mod c14;
+pub mod c17;
 
 pub fn all() -> Vec<PropertyMeta> {
-    vec![c03::meta(), c07::meta(), c08::meta(), c09::meta(), c12::meta(), c14::meta()]
+    vec![c03::meta(), c07::meta(), c08::meta(), c09::meta(), c12::meta(), c14::meta(), c17::meta()]
 }
